@@ -129,7 +129,8 @@ class Engine:
         code = ('import sys, itertools\nsys.path.insert(0, %r)\n' % VERIF +
                 'def check(%s):\n' % ', '.join(names) +
                 ''.join('    ' + l + '\n' for l in body.splitlines()) +
-                'POOLS = dict(str=["", "a", "ab", "\\n", "a\\n", "\\r\\n", "a\\nb", "\\r", "a\\rbc", "\\n\\n", "\\ufeff", "#c", "\\\\\\n", "\\x0c"],\n'
+                'POOLS = dict(str=["", "a", "ab", "\\n", "a\\n", "\\r\\n", "a\\nb", "\\r", "a\\rbc", "\\n\\n", "\\ufeff", "#c", "\\\\\\n", "\\x0c",\n'
+                '                  "a\\xb2", " \\xa0\\"", " \\"", "#\\x0cb"],\n'
                 '             int=[0, 1, 2, 7], pos=[(1, 0), (2, 3), (1, 5)])\n'
                 'def run(vals):\n'
                 '    try:\n        return check(*vals)\n    except Exception as e:\n        return ("exception %%r" %% (e,))\n'
